@@ -10,7 +10,7 @@ RULE = ("MC: Converge.tla (two nodes, both handshakes, delivery in any order wit
         "nodes (flow, swaps, single matching tunnel); distinct = histories")
 ASSUMPTIONS = [
     "'once the network is quiet' = every started handshake has completed on both sides (single copies may be lost or duplicated) "
-    "and both nodes keep sending one packet per second; connection_alive_interval 5 s, pending_deletion_interval 10 s, 90 s horizon",
+    "and the steady phase follows one of three traffic patterns (continuous; 7 s silent, 3 s traffic, 45 s silent; 12 s silent, 40 s traffic, 25 s silent); connection_alive_interval 5 s, pending_deletion_interval 10 s",
     "a swap is observed as a change of the primary at a node while its set of tunnels is unchanged",
     "the convergence clause is decided on the real nodes (oracle at the end of the quiet period); the model's own liveness is "
     "not claimed: Converge.tla abstracts check timing too coarsely to prove it",
